@@ -33,7 +33,8 @@ refinement no longer exclude zero-value credits, so a zero-value credit whose co
 of the outputs `C01_utxos_ledger` / `C01_watch_ledger` speak about (scripted engine case `zero-value-credit`).
 
 Nothing of C01 is left `_partial`.  What is compared up to order: the `UnspentOutputs` / `OutputsToWatch` lists
-(`List.Perm`; the store answers in bucket order).  The same relation is also evaluated at run time (ops `refcheck`,
+(`List.Perm`; the store answers in bucket order) in `C01_utxos_ledger` / `C01_watch_ledger`; the exact order is given by
+`C01_utxos_ledger_exact`, `C01_utxos_order_unique`, `C01_watch_ledger_exact` at the end of this file.  The same relation is also evaluated at run time (ops `refcheck`,
 `reffuzz`, `spec probe` / `probe`: Lean spec = Lean model = real Go).
 -/
 namespace TxStore.C01
